@@ -28,6 +28,7 @@
 #include "Tree/KNN.hpp"
 #include "Space/ASpaceObject.hpp"
 #include "Space/SpaceTarget.hpp"
+#include "Space/SpacePoint.hpp"
 #include "Enum/ESpaceType.hpp"
 #include "Basic/VectorHelper.hpp"
 #include "Geometry/BiTargetCheckBench.hpp"
@@ -99,19 +100,34 @@ static std::string run_moving(const Sx& c) {
   return o.str();
 }
 
-// (1 metric leaf points queries)  queries = ((coords k) ...)
+// (1 metric leaf points queries [opts])  queries = ((coords k) ...)  opts = (ctor spacemode)
+//   ctor: 0 = Ball(data**, n, nf), 1 = Ball(VectorVectorDouble), 2 = Ball(Db*), 3 = Ball() + init(Db*)
+//   spacemode: 0 = defineDefaultSpace(RN, nf), 1 = defineDefaultSpace(RN, 2) (the library's initial default space),
+//              2 = defineDefaultSpace is not called at all (such cases come first in the file)
 static std::string run_knn(const Sx& c) {
   int metric = (int) c[1].i(), leaf = (int) c[2].i();
   const Sx& pts = c[3];
+  int ctor = c.size() > 5 ? (int) c[5][0].i() : 0;
+  int spacemode = c.size() > 5 ? (int) c[5][1].i() : 0;
   int n = (int) pts.size(); int nf = n > 0 ? (int) pts[0].size() : 0;
   VectorVectorDouble data(nf);
   for (int j = 0; j < nf; j++) for (int i = 0; i < n; i++) data[j].push_back(pts[i][j].d());
-  defineDefaultSpace(ESpaceType::RN, nf);
-  // pointer constructor (btree_init copies the rows)
+  if (spacemode == 0) defineDefaultSpace(ESpaceType::RN, nf);
+  else if (spacemode == 1) defineDefaultSpace(ESpaceType::RN, 2);
+  bool space_ok = ((int) getDefaultSpaceDimension() == nf);
   std::vector<std::vector<double>> rows(n, std::vector<double>(nf));
   std::vector<const double*> rp(n);
   for (int i = 0; i < n; i++) { for (int j = 0; j < nf; j++) rows[i][j] = pts[i][j].d(); rp[i] = rows[i].data(); }
-  Ball* pball = new Ball(rp.data(), n, nf, nullptr, leaf, metric);
+  Ball* pball = nullptr; Db* db = nullptr;
+  if (ctor == 0) pball = new Ball(rp.data(), n, nf, nullptr, leaf, metric);
+  else if (ctor == 1) pball = new Ball(data, nullptr, leaf, metric);
+  else {
+    VectorDouble tab; VectorString names, locs;
+    for (int j = 0; j < nf; j++) { for (int i = 0; i < n; i++) tab.push_back(data[j][i]); names.push_back(xname(j)); locs.push_back(xname(j)); }
+    db = Db::createFromSamples(n, ELoadBy::COLUMN, tab, names, locs, false);
+    if (ctor == 2) pball = new Ball(db, nullptr, leaf, metric, false);
+    else { pball = new Ball(); pball->init(db, nullptr, leaf, metric, false); }
+  }
   Ball& ball = *pball;
   std::ostringstream o;
   o << "(";
@@ -121,12 +137,18 @@ static std::string run_knn(const Sx& c) {
     int k = (int) q[1].i();
     KNN knn = ball.queryOneAsVD(x, k);
     VectorInt id = knn.getIndices(0); VectorDouble d = knn.getDistances(0);
+    // the other entry points must give the same indices: queryOne, queryAsVVD, queryOneInPlace, getIndices(SpacePoint)
+    std::ostringstream v;
+    { KNN k1 = ball.queryOne(x.data(), nf, k); v << sx_vi(k1.getIndices(0)) << " "; }
+    { VectorVectorDouble t(nf); for (int j = 0; j < nf; j++) t[j].push_back(x[j]); KNN k2 = ball.queryAsVVD(t, k); v << sx_vi(k2.getIndices(0)) << " "; }
+    { VectorInt ii; VectorDouble dd; (void) ball.queryOneInPlace(x, k, ii, dd, 0); v << sx_vi(ii) << " "; }
+    if (space_ok) { SpacePoint P(x); v << sx_vi(ball.getIndices(P, k)); } else v << "(-2)";
     if (!first) o << " "; first = false;
-    if (k > n) { o << "((-1) " << sx_vi(id) << " " << (k == 1 ? ball.queryClosest(x) : -1) << ")"; continue; }
-    o << "(" << sx_vd(d) << " " << sx_vi(id) << " " << (k == 1 ? ball.queryClosest(x) : -1) << ")";
+    if (k > n) o << "((-1) " << sx_vi(id) << " " << (k == 1 ? ball.queryClosest(x) : -1) << " (" << v.str() << "))";
+    else o << "(" << sx_vd(d) << " " << sx_vi(id) << " " << (k == 1 ? ball.queryClosest(x) : -1) << " (" << v.str() << "))";
   }
   o << ")";
-  delete pball;
+  delete pball; delete db;
   return o.str();
 }
 
